@@ -176,6 +176,11 @@ fn in_process(plan: &Plan) -> Judged {
 							// instance is still working on its files it must be refused
 							let was_holder = holder == Some(i);
 							let probe_mid_close = was_holder && rng.chance(1, 2);
+							// a quarter of the closes: the first close() is abandoned at one of its
+							// suspension points (what a timeout or select! around it does), then the
+							// handle is closed again - that second close() must finish the job
+							let cancel_after: Option<u32> = if rng.chance(1, 4) { Some(rng.range(1, 2) as u32) } else { None };
+							let mut cancelled = false;
 							let res = {
 								struct NoWake;
 								impl std::task::Wake for NoWake {
@@ -190,6 +195,10 @@ fn in_process(plan: &Plan) -> Judged {
 										break r;
 									}
 									polls += 1;
+									if cancel_after == Some(polls) {
+										cancelled = true;
+										break Ok(());
+									}
 									if probe_mid_close && polls <= 2 {
 										let from = ip::op_count();
 										let r2 = open_store(&opts, &dir);
@@ -214,6 +223,16 @@ fn in_process(plan: &Plan) -> Judged {
 							if let Err(e) = res {
 								fail(&mut j, "close_failed", e.to_string());
 								return;
+							}
+							if cancelled {
+								j.count("closes_abandoned_midway", 1);
+								for _ in 0..rng.below(3) {
+									tokio::task::yield_now().await;
+								}
+								if let Err(e) = t.close().await {
+									fail(&mut j, "close_failed", format!("step {}: close() after an abandoned close() failed: {}", step, e));
+									return;
+								}
 							}
 							if rng.chance(1, 2) {
 								zombies.push(t);
